@@ -15,7 +15,10 @@
        global run queue: FIFO position = claim order, a claimed slot makes bulk_pop wait) and the tail load of
        push_index (the instant at which a bulk_pop finds the queue empty); the committing store of
        may_queue::spmc::Queue::push (push_back into a local run queue); Park::subscribe's wait_co.store / take and
-       Park::wake_up's wait_co.take (the slot of a parked coroutine).
+       Park::wake_up's wait_co.take (the slot of a parked coroutine); for I/O (UDP read / send paths): io_data.co.store of
+       the subscriber, data.co.take of Selector::select (LIoTake), event_data.co.take of timeout_handler (LTmTake),
+       EventData::fast_schedule / schedule (KSelfTake / unparker); the `ready` store and the tail re-opening store of the
+       mpsc push that closes a block (see mpsc_block below).
    The spmc operations pop / steal_into / has_tasks are NOT schedule points in the acceptor-tied runs (cfg.sched_files
    of the scenario: the atomic-FIFO abstraction of C04), so the pure record that follows them (sc.pop, sc.steal,
    ep.done) is their linearisation point.
@@ -42,7 +45,9 @@
                       the next ep.wait)
      ep.wakeup(k)     by a pusher that has pushed into global queue k and owes the eventfd write: the spawner at SW k
                       (AStep, owed), the kernel half at KW k (KStep, owed), an unparker after its Wake (LAnonWake, anon);
-                      a wake-up by somebody who has not pushed is rejected
+                      or by the kernel half of an I/O subscriber before it has stored the coroutine (Selector::add_io_timer:
+                      LSpurWake, no push); a wake-up by anybody else - in particular by a pusher that has not pushed yet -
+                      is rejected
      run_coroutine    LResume at PRes (after sc.pop / sc.steal) - the coroutine resumed is the one the model popped;
                       LCoRet when the worker's next loop event arrives with its stack unwound
    sp.call(j, flags): flags bit 3 = Builder::id(flags >> 8): ASpawn with that id at once (schedule_global_with_id has no
